@@ -30,7 +30,7 @@ def clause_pool(verb, rng):
     if verb == "do":
         return {"as": "as " + rng.choice(["foo", "big deal", "alpha beta gamma"]),
                 "at": "at " + rng.choice(["enter", "exit", "recur", "precur", "renter", "rexit"]),
-                "via": "via " + rng.choice([".x.y.", "boo."]),
+                "via": "via " + rng.choice([".x.y.", "boo.", "box of actor", "box of frame", "box of framer", "box of me", "box of actor"]),
                 # quoted values that look like numbers, booleans or paths must stay strings wherever the clause stands;
                 # a lone value goes to the default field
                 "with": "with " + rng.choice(['tag "t1"', 'tag "t2"', '"2.50"', 'tag "10"', '"true"', 'tag ".a.b"', "tag 'x y' n 3",
@@ -171,6 +171,8 @@ def run(ctx):
     for v in VERBS:
         for i in range(per):
             items.append((v, ctx.rng.randrange(1 << 30)))
+    for i in range(per):          # `do` has by far the largest clause set
+        items.append(("do", ctx.rng.randrange(1 << 30)))
     n = 16
     ctx.shard([{"items": items[i::n]} for i in range(n)], timeout=ctx.pick(300, 1200))
     for v in VERBS:
